@@ -42,6 +42,7 @@ LatticesMC == Chains({3}, {"spin", "fermion"}) \cup InfChains({2}, {"fermion"}, 
                     Lat("Square", 2, 2, "open", "periodic", "finite", <<"fermion">>, 1)}
 LatticesOne == {Lat("Chain", 3, 1, "open", "open", "finite", <<"fermion">>, 1)}
 LatticesInf2 == InfChains({2}, {"fermion", "spin"}, 2) \cup InfChains({1}, {"fermion"}, 4)
+LatticesLong == InfChains({1}, {"spin", "fermion"}, 6) \cup InfChains({2}, {"spin"}, 4)
 LatticesQuick == Chains({2, 3, 4}, {"spin", "fermion", "boson1"}) \cup Chains({2, 3}, {"boson2"})
                  \cup InfChains({1}, {"spin", "fermion"}, 4) \cup InfChains({2}, {"spin", "fermion", "boson1"}, 2)
                  \cup InfChains({3}, {"fermion"}, 1)
@@ -165,7 +166,7 @@ Setup == /\ cfg = NoCfg
               /\ G2' = MZero(Size(DimsOf(TypesOf(c))), Size(DimsOf(TypesOf(c))))
          /\ UNCHANGED <<decls, pend, cons, last, nops, hist>>
 
-CanPropose == cfg # NoCfg /\ pend = None /\ Len(decls) < MaxDecl
+CanPropose == cfg # NoCfg /\ pend = None /\ Len(decls) < MaxDecl /\ Profile # "long"
 Propose(d) == pend' = d /\ UNCHANGED <<cfg, decls, H, G2, cons, last, nops, hist>>
 
 PropOnsite == /\ CanPropose
@@ -198,6 +199,27 @@ PropMulti ==
          LET g == Geo(ops)
          IN /\ NonEmpty(cfg, g)
             /\ \E s \in Strengths(ShapeX(cfg, g), ShapeY(cfg, g)) : Propose(CouplingDecl("multi", s, ops, "auto", hc))
+
+\* long multi-site couplings on infinite chains with a short unit cell (Profile = "long"): the operators span several
+\* unit cells with gaps of at least one unit cell between an inner operator and its neighbour / the switch site, so
+\* that operator strings starting outside the first unit cell have to wrap around it; sw = switchLR option
+\* ("middle_i" | "middle_op"), a representation choice that must not change the operator
+LongPatterns(c) ==
+    LET t == c.uc[1]
+    IN IF NCell(c) = 1
+       THEN (IF t = "spin" THEN {<<<<"Sigmaz", 0>>, <<"Sigmax", 1>>, <<"Sigmaz", 5>>>>, <<<<"Sp", 0>>, <<"Sigmaz", 1>>, <<"Sm", 5>>>>,
+                                 <<<<"Sigmax", 0>>, <<"Sigmay", 1>>, <<"Sigmaz", 2>>, <<"Sigmax", 5>>>>}
+             ELSE {<<<<"Cd", 0>>, <<"N", 1>>, <<"C", 5>>>>, <<<<"N", 0>>, <<"Cd", 1>>, <<"C", 5>>>>})
+       ELSE (IF t = "spin" THEN {<<<<"Sp", 0>>, <<"Sigmaz", 2>>, <<"Sigmaz", 5>>, <<"Sm", 6>>>>}
+             ELSE {<<<<"Cd", 0>>, <<"N", 2>>, <<"N", 5>>, <<"C", 6>>>>})
+PropMultiLong ==
+    /\ Profile = "long" /\ cfg # NoCfg /\ pend = None /\ Len(decls) < MaxDecl /\ Infinite(cfg) /\ Nu(cfg) = 1
+    /\ \E p \in LongPatterns(cfg), hc \in BOOLEAN, sw \in {"middle_i", "middle_op"},
+          z \in (IF NCell(cfg) = 1 THEN {<<1, 0>>, <<1, 2>>} ELSE {<<1, 2>>}) :
+         LET ops == [k \in 1..Len(p) |-> <<p[k][1], <<p[k][2], 0>>, 0>>]
+         IN /\ NonEmpty(cfg, Geo(ops))
+            /\ pend' = [kind |-> "multi", s |-> Scalar(z), ops |-> ops, str |-> "auto", hc |-> hc, sw |-> sw]
+            /\ UNCHANGED <<cfg, decls, H, G2, cons, last, nops, hist>>
 
 \* exponentially decaying couplings, lambda = 1/2 or 1/4; subsites: all, or every second site
 PropExpDecay ==
@@ -257,7 +279,7 @@ CommitMulti == Commit("multi")
 CommitExpDecay == Commit("expdecay")
 CommitLocal == Commit("local")
 
-Next == Setup \/ PropOnsite \/ PropCoupling \/ PropCouplingStr \/ PropMulti \/ PropExpDecay \/ PropLocal
+Next == Setup \/ PropOnsite \/ PropCoupling \/ PropCouplingStr \/ PropMulti \/ PropMultiLong \/ PropExpDecay \/ PropLocal
         \/ CommitOnsite \/ CommitCoupling \/ CommitMulti \/ CommitExpDecay \/ CommitLocal
 Spec == Init /\ [][Next]_vars
 
